@@ -24,6 +24,7 @@ CHECKS = {
     'C03': ('exploration', 'dict reference model stepped in lock-step with two archives stored side by side and a copy: 13 archive configurations x direct / behind a cache, 29 operation kinds incl. stores that cannot be encoded; full contents, len, keys, membership and == compared after every step', 'alias-free key pools for directory archives (aliasing, slash keys and source-text poison values are open known findings, probed on every run); popitem / iteration order as validity predicates', 'property-based testing (Hypothesis, stratified over archive configuration x direct/cached): generated operation sequences; model-based differential oracle (Python dict) with per-step full-state comparison'),
     'C08': ('exploration', 'two-dict + flag model of cache / attached archive / parked archive stepped against klepto cache over 12 archive kinds: cache ops, direct archive ops (also on parked and replaced archives), dump/load/sync keyed and unkeyed, archived on/off/query, open, archive=, drop; cache, every archive ever attached, archived() and identity of cache.archive compared after every step', 'str keys and scalar values only (accepted by every codec)', 'property-based testing (Hypothesis, stratified over archive kind; half of the histories start from a constructed conflict or off..mutate..on sandwich): model-based oracle written from the property statement, full-state comparison after every step'),
     'C04': ('exploration', 'dict model of store-time deep copies vs what every reader placement sees (writer handle, new handle, forked process, second interpreter with another hash seed and bytecode caching on, a handle that interpreter kept open) for writers in this process, in forked children that exit, or in a separate interpreter; 10 persistent configurations; rebuild paths (copy from state, dill round trip, cached re-open + load, pickled cache wrapper) and re-decoration sessions served from the archive', 'worker interpreters run with python default bytecode caching; values restricted to each codec domain; sqlite handles do not pickle', 'property-based testing (Hypothesis, stratified over persistent configuration + a session stratum): generated write histories x writer/reader process placements executed with real forked processes and worker interpreters; model-based round-trip oracle (type-exact)'),
+    'C17': ('exploration', 'repr(key) of three spellings of one call computed in three interpreters with hash seeds 0 / 1 / 4242 must be byte-identical for every session-stable keymap (raw, string, pickle, every advertised hashlib algorithm; flat, typed, sentinel variants) via f.key and klepto.keygen; writer/reader session pairs on 7 persistent archives: the later session (other seed, other spellings) answers every call without evaluating', 'inputs whose own repr/pickle differs between interpreters are discarded and counted; sets/frozensets not generated', 'property-based testing (Hypothesis): generated signatures x bindings x spellings x keymaps evaluated in three real worker interpreters with different PYTHONHASHSEED; differential oracle between interpreters + session round-trip oracle'),
     'C05': ('exploration',
             'generated histories over all 12 decorator classes x maxsize spellings (positional/keyword, 0, None, 1..6) x purge x 18 backends; per-call size predicate taken from the property statement; finds violations, cannot prove absence',
             'sizes observed via len(f.__cache__()) and f.info().size; bounded history length (<=60 ops) and pool size (<=8 keys)',
